@@ -63,7 +63,7 @@ func bkKeyreg(g *Gen, a basics.Address, fee uint64, last basics.Round) transacti
 func (o *bkAbsObs) ExtraGroups(s *Sim, g *Gen, ev *eval.BlockEvaluator, hdr *bookkeeping.BlockHeader, cands []Candidate) []Candidate {
 	if !o.modeDrawn {
 		o.modeDrawn = true
-		o.mode = []int{0, 1, 1, 2, 2, 2}[g.n(6)]
+		o.mode = []int{0, 1, 1, 2, 2, 2, 3, 3}[g.n(8)] // 3: like 1, but the eligible whale later opts out of participation for good
 		s.stat(fmt.Sprintf("C27.mode_%d", o.mode), 1)
 	}
 	mf := g.proto.MinTxnFee
@@ -85,9 +85,18 @@ func (o *bkAbsObs) ExtraGroups(s *Sim, g *Gen, ev *eval.BlockEvaluator, hdr *boo
 			}
 		}
 		wd := g.st.Accts[w.Addr]
-		if wd.Status != basics.Online && (o.mode == 1 || wd.VoteID.IsEmpty()) {
+		if o.mode == 3 && wd.Status == basics.Online && wd.IncentiveEligible && wd.LastHeartbeat+4 < g.next && wd.LastProposed+4 < g.next && g.n(3) == 0 {
+			t := g.bkPay(w.Addr, basics.Address{}, 0, mf)
+			t.Type = protocol.KeyRegistrationTx
+			t.PaymentTxnFields = transactions.PaymentTxnFields{}
+			t.Nonparticipation = true
+			if c, ok := one(t, "whale-nonparticipation"); ok {
+				tail = append(tail, c)
+			}
+		}
+		if wd.Status != basics.Online && wd.Status != basics.NotParticipating && (o.mode == 1 || o.mode == 3 || wd.VoteID.IsEmpty()) {
 			fee := mf
-			if o.mode == 1 {
+			if o.mode == 1 || o.mode == 3 {
 				fee = g.proto.Payouts.GoOnlineFee
 			}
 			if c, ok := one(bkKeyreg(g, w.Addr, fee, g.next+1000), "whale-keyreg"); ok {
@@ -263,7 +272,7 @@ func (o *bkAbsObs) TamperBlock(s *Sim, g *Gen, blk bookkeeping.Block) {
 		a  basics.Address
 		ad ledgercore.AccountData
 	}
-	var notYet, noKey, offline, inelig, ineligAbsent, recent []cand
+	var notYet, noKey, offline, inelig, ineligAbsent, recent, nonpartSilent []cand
 	for _, a := range prev.sortedAddrs() {
 		if bkHas(blk.ExpiredParticipationAccounts, a) || bkHas(blk.AbsentParticipationAccounts, a) {
 			continue
@@ -281,6 +290,15 @@ func (o *bkAbsObs) TamperBlock(s *Sim, g *Gen, blk bookkeeping.Block) {
 		}
 		if ad.Status != basics.Online {
 			offline = append(offline, c)
+			// an account that opted out of participation for good but would look "absent" to the stake rule (it was
+			// online and eligible at the balance round and has been silent): only its status protects it
+			if ad.Status == basics.NotParticipating && ad.IncentiveEligible && ad.MicroAlgos.Raw != 0 {
+				if total, stake, okv := bkStakeView(s, r, a, p); okv && stake > 0 {
+					if ab, _ := bkAbsentByStake(total, stake, bkLastSeen(ad)+2, r); ab {
+						nonpartSilent = append(nonpartSilent, c)
+					}
+				}
+			}
 			continue
 		}
 		total, stake, okv := bkStakeView(s, r, a, p)
@@ -353,6 +371,15 @@ func (o *bkAbsObs) TamperBlock(s *Sim, g *Gen, blk bookkeeping.Block) {
 		v := bkCopyBlock(blk)
 		v.AbsentParticipationAccounts = append(v.AbsentParticipationAccounts, c.a)
 		if !judge("absent-not-online", fmt.Sprintf("%s (status %v) added to AbsentParticipationAccounts", shortAddr(c.a), c.ad.Status), v) {
+			return
+		}
+	}
+	if len(nonpartSilent) > 0 {
+		c := nonpartSilent[g.n(len(nonpartSilent))]
+		s.stat("C27.nonparticipating_but_silent_candidate", 1)
+		v := bkCopyBlock(blk)
+		v.AbsentParticipationAccounts = append(v.AbsentParticipationAccounts, c.a)
+		if !judge("absent-nonparticipating-but-silent", fmt.Sprintf("%s (NotParticipating, still IncentiveEligible, online at the balance round, last seen %d: silent longer than its stake allows) added to AbsentParticipationAccounts", shortAddr(c.a), bkLastSeen(c.ad)), v) {
 			return
 		}
 	}
